@@ -224,6 +224,7 @@ reg(Spec("C15", "Props/C15.v", harness="auditproc", overlay=AUDITPROC_OVERLAY,
       "go-libaudit's eventList (Put/CleanUp/Clear, event.Add, lost-gap arithmetic) is hand-modelled and tied by correspondence only; the sequence roll-over rule of sequenceNumSlice.Less is left out",
       "time is an input (value of time.Now() per call); real expiry is exercised only with a 60 ms timeout and 150 ms pauses",
       "Read's main loop is modelled as polling after every step of the parser/maintain goroutines (eager select); the both-errors-pending race and what the parser goroutine does after Read returned (C13) are not modelled",
+      "Read (set-up, deferred calls, the five select arms), parseAuditLogs, maintainReassemblerLoop, ReassemblyComplete and EventsLost are translated from the source on every run (Gen/AuditProg.v, IR and interpreter Model/AuditIR.v) and proved equal to the model for all inputs and oracles (C15_processor_from_source_*); trusted there: the translator's reading of the constructs it accepts (it fails closed otherwise) and the interpreter's stated contracts of the library calls (ResolveIDs resolves in place, NewReassembler succeeds, Maintain fails iff closed, a select without default takes the arm the environment chooses)",
     ],
-    modelled=["processors/auditd/auditd.go (Read, parseAuditLogs)", "processors/auditd/reassembler_callback.go", "go-libaudit reassembler.go (hand-modelled)"],
+    modelled=["processors/auditd/auditd.go (Read, parseAuditLogs, maintainReassemblerLoop: translated, tools/go2v/auditgen.go)", "processors/auditd/reassembler_callback.go (translated)", "go-libaudit reassembler.go (hand-modelled)"],
     extra_targets=["Model/AuditProcCheck.vo"]))
